@@ -322,6 +322,7 @@ class StridedInterval:
                 f"{self.bits:x} {self.lower_bound:x} {self.upper_bound:x} {self.stride:x}",
                 self._reversed,
                 self.uninitialized,
+                self._is_bottom,
             )
         )
 
